@@ -1131,3 +1131,55 @@ func S15(rc *RC) {
 		rc.S.Ok("S15", "tensor.S", pos, fmt.Sprintf("%d paths store their arguments", n))
 	}
 }
+
+// S16: make-then-index agreement. `x := make([]T, … (v + 1) …)` followed by `x[w] = e`: the
+// length was computed from v so that index v exists; a store at a different variable w (the
+// unresolved twin of a resolved axis, say) indexes past the slice. Reported only for this
+// idiom: length mentioning (v + 1), index a plain variable.
+func S16(rc *RC, floor int) {
+	rc.S.Declare("S16", "make-then-index agreement: a slice made with a length computed as (v + 1) is stored to at index v, not at another variable", floor)
+	mk := regexp.MustCompile(`^make\(\[\][\w.*]+, (.*)\)$`)
+	plus1 := regexp.MustCompile(`\(([%$]\w+) \+ 1\)`)
+	for _, fi := range rc.P.SortedFuncs() {
+		if fi.Pkg != rc.P.Root || fi.Decl.Body == nil || strings.HasSuffix(fi.File, "_test.go") || strings.HasPrefix(fi.File, "sparse") {
+			continue
+		}
+		c := ir.NewCanon(rc.P.Fset, fi.Pkg.TypesInfo, ir.Options{ParamNames: true, KeepNames: true, NoSubst: true})
+		tree := c.Func(fi.Decl)
+		if !strings.Contains(ir.Render(tree), "make([]") {
+			continue
+		}
+		nodes := flatten(tree)
+		for _, n := range nodes {
+			if n.Kind != "let" && n.Kind != "store" {
+				continue
+			}
+			m := mk.FindStringSubmatch(n.Value)
+			if m == nil {
+				continue
+			}
+			vs := plus1.FindAllStringSubmatch(m[1], -1)
+			if len(vs) == 0 {
+				continue
+			}
+			v := vs[0][1]
+			x := n.Target
+			idxRe := regexp.MustCompile(`^` + regexp.QuoteMeta(x) + `\[([%$]\w+)\]$`)
+			for _, s := range nodes {
+				if s.Kind != "store" && s.Kind != "let" {
+					continue
+				}
+				im := idxRe.FindStringSubmatch(s.Target)
+				if im == nil {
+					continue
+				}
+				key := fmt.Sprintf("%s#%s[%s]", fi.Key, x, v)
+				if im[1] == v {
+					rc.S.Ok("S16", key, rc.P.Pos(s.Pos), "indexed by the variable its length was computed from")
+				} else {
+					rc.S.Viol("S16", key, rc.P.Pos(s.Pos), fmt.Sprintf("%s is made with length %s (so that index %s exists) but is stored to at %s", x, m[1], v, im[1])).Sig = "index " + im[1]
+				}
+			}
+		}
+	}
+}
